@@ -548,6 +548,27 @@ func (st *runState) finishWith(ri *simcheck.RunInfo, sim *simrt.Sim, sys *System
 					add("C02", "row-fields-mixed", "row of entry differs from the submitted entry (span row)",
 						fmt.Sprintf("traces INSERT #%d row %d for span %s: span_id=%x trace_id=%x ts=%d dur=%d; submitted span_id=%x trace_id=%x ts=%d dur=%d", blk.Seq, i, tag, sid.Vals[i], tid.Vals[i], ts.Vals[i], dur.Vals[i], x.SpanID, x.TraceID, x.TsNs, x.DurNs))
 				}
+				if pl := blk.Col("payload"); pl != nil && i < len(pl.Vals) && !st.hostileReq(x.Req) {
+					// the stored payload is the span as it was sent: it names this span and no other
+					body := fmt.Sprint(pl.Vals[i])
+					if bs, ok := pl.Vals[i].([]byte); ok {
+						body = string(bs)
+					}
+					own := false
+					foreign := ""
+					for _, t := range reTag.FindAllString(body, -1) {
+						// (in a protobuf payload the byte after the name may happen to be a digit)
+						if strings.HasPrefix(t, tag) {
+							own = true
+						} else if foreign == "" {
+							foreign = t
+						}
+					}
+					if !own || foreign != "" {
+						add("C02", "row-fields-mixed", "row of entry differs from the submitted entry (span payload)",
+							fmt.Sprintf("traces INSERT #%d row %d is span %s but its payload (%d bytes) names %q (own name present: %v)", blk.Seq, i, tag, len(body), foreign, own))
+					}
+				}
 				if blk.Finished && blk.Err == nil {
 					okRows[tag] = append(okRows[tag], loc{blk, i})
 				}
